@@ -333,10 +333,20 @@ def rotation_identity(P, rep, funcs, rule="EXPR.rotation"):
                               key="%s|%s" % (rule, F.qn), witness="any draw")
 
 
+def pure_table_guard(P, cond):
+    """the condition is exactly normalize_grain_sizes[<index>] (no further conjunct that could switch the normalisation off)"""
+    c = sc(cond)
+    s = astq.subscript(c)
+    if s is None:
+        return False
+    b = sc(s[0])
+    return b.get("k") == "MemberExpr" and b.get("n") == "normalize_grain_sizes"
+
+
 def size_normalisation(P, rep, funcs, rule="EXPR.sizes"):
     """sizes: it = (grain_sizes[i] < 0 ? draw : grain_sizes[i]); total += it; if (normalize[i]) sizes *= 1/total"""
     rep.rule(rule, "grain sizes: each size is the configured value (or a draw when negative), total accumulates exactly the sizes "
-                   "assigned, and under normalize_grain_sizes[i] every size is multiplied by 1/total (so they sum to one)")
+                   "assigned, and under exactly the condition normalize_grain_sizes[i] (no further conjunct) every size is multiplied by 1/total (so they sum to one)")
     for F in funcs:
         ok = True
         why = []
@@ -392,7 +402,7 @@ def size_normalisation(P, rep, funcs, rule="EXPR.sizes"):
                                 if init is not None and init.get("k") == "BinaryOperator" and init.get("op") == "/" and sc(init["c"][0]).get("v") == 1 \
                                         and astq.is_ref_to(init["c"][1], tot):
                                     guard = astq.enclosing(F, x, ("IfStmt",))
-                                    if guard is not None and "normalize_grain_sizes[" in norm.render(P, guard["c"][0]):
+                                    if guard is not None and pure_table_guard(P, guard["c"][0]):
                                         lam_ok = True
         if not lam_ok:
             # idiom 2: for (auto &&size : grains_local.sizes) size = size * one_over_total_size;
@@ -424,7 +434,7 @@ def size_normalisation(P, rep, funcs, rule="EXPR.sizes"):
                     if init is not None and init.get("k") == "BinaryOperator" and init.get("op") == "/" and sc(init["c"][0]).get("v") == 1 \
                             and astq.is_ref_to(init["c"][1], tot):
                         guard = astq.enclosing(F, x, ("IfStmt",))
-                        if guard is not None and "normalize_grain_sizes[" in norm.render(P, guard["c"][0]):
+                        if guard is not None and pure_table_guard(P, guard["c"][0]):
                             lam_ok = True
         if not lam_ok:
             ok = False
@@ -434,3 +444,51 @@ def size_normalisation(P, rep, funcs, rule="EXPR.sizes"):
         else:
             rep.violation(rule, "%s: %s" % (F.qn, "; ".join(why)), F.loc, F.qn, "", "normalised sizes do not sum to one / fixed sizes altered",
                           key="%s|%s" % (rule, F.qn), witness="grains request with 3 grains, normalize true")
+
+
+def broadcast_single_value(P, rep, rule="RNG.broadcast"):
+    """a single listed bound stands for all compositions"""
+    rep.rule(rule, "where a model accepts one value for all its compositions (`if (X.size() == 1)`), X is grown to compositions.size() "
+                   "with that one value as the fill (`X.resize(n, X[0])`, the value read before the resize): every composition gets "
+                   "the listed bound, none a default of 0")
+    n = 0
+    for F in sorted(P.funcs.values(), key=lambda f: f.key):
+        if F.body is None or F.name != "parse_entries" or "Models::" not in F.qn:
+            continue
+        for x in F.walk():
+            if x.get("k") != "IfStmt":
+                continue
+            c = sc(x["c"][0])
+            if not (c.get("k") == "BinaryOperator" and c.get("op") == "==" and sc(c["c"][1]).get("v") == 1):
+                continue
+            mc = astq.member_call(P, c["c"][0], "size")
+            if not mc or not astq.is_this_field(P, mc[0]):
+                continue
+            fld = sc(mc[0])
+            n += 1
+            rs = [y for y in F.walk(x["c"][1]) if astq.member_call(P, y, "resize") and astq.is_this_field(P, astq.member_call(P, y, "resize")[0], fld.get("n"))]
+            good = False
+            why = "no resize of %s in the broadcast branch" % fld.get("n")
+            if len(rs) == 1:
+                args = astq.member_call(P, rs[0], "resize")[2]
+                args = [a for a in args if a is not None and a.get("k") != "CXXDefaultArgExpr"]
+                if len(args) < 2:
+                    why = "%s.resize(%s) has no fill value: the added entries are 0" % (fld.get("n"), norm.render(P, args[0], nocast=True) if args else "")
+                else:
+                    v = sc(args[1])
+                    if v.get("k") == "DeclRefExpr":
+                        for d in F.walk(x["c"][1]):
+                            if d.get("k") == "VarDecl" and d.get("r") == v.get("r") and d.get("c"):
+                                v = sc(d["c"][0])
+                    sub = astq.subscript(v)
+                    if sub is not None and astq.is_this_field(P, sub[0], fld.get("n")) and sc(sub[1]).get("v") == 0 and "compositions.size()" in norm.render(P, args[0], nocast=True).replace(" ", ""):
+                        good = True
+                    else:
+                        why = "%s is resized to %s with fill %s" % (fld.get("n"), norm.render(P, args[0], nocast=True), norm.render(P, args[1], nocast=True))
+            if good:
+                rep.ok(rule, "%s: %s broadcast as resize(compositions.size(), %s[0])" % (F.qn.split("Features::")[-1], fld.get("n"), fld.get("n")), F.nloc(x), F.qn)
+            else:
+                rep.violation(rule, "%s: %s" % (F.qn.split("Features::")[-1], why), F.nloc(x), F.qn, norm.render(P, x["c"][1])[:160],
+                              "compositions after the first do not get the listed value", key="%s|%s|%s" % (rule, F.qn, fld.get("n")),
+                              witness="several compositions with one shared bound")
+    rep.floor(rule, n, 2, "single-value broadcasts")
